@@ -18,6 +18,12 @@ theorem roundWithAccuracy_exact (m : Nat) (e : Int) (h1 : 2 ^ 52 ≤ m) (he : -1
   obtain ⟨rfl, rfl⟩ := hex rfl hd
   exact heq
 
+/-- congruence for `finite` with unrelated positivity proofs (rewriting with `▸` makes the kernel evaluate symbolic
+    mantissas) -/
+theorem finite_congr' {s : Sign} {m m' : Nat} {e e' : Int} (h : 0 < m) (h' : 0 < m') (hm : m = m') (he : e = e') :
+    UnpackedFloat.finite s m e h = UnpackedFloat.finite s m' e' h' := by
+  subst hm; subst he; rfl
+
 theorem mul_finite (spec : Format) (s₁ s₂ : Sign) (m₁ m₂ : Nat) (e₁ e₂ : Int) (h₁ : 0 < m₁) (h₂ : 0 < m₂) :
     UnpackedFloat.mul spec (.finite s₁ m₁ e₁ h₁) (.finite s₂ m₂ e₂ h₂) =
       roundWithAccuracy spec (s₁ * s₂) (m₁ * m₂) (e₁ + e₂) .exact := rfl
@@ -105,9 +111,35 @@ theorem unpacked_ofNat_small (y : Nat) (h0 : 0 < y) (hy : y < 2 ^ 53) :
   rw [Int.toNat_natCast]
   have e1 : (0 - ((y.log2 : Int) + 0 - 52)).toNat = 52 - y.log2 := by omega
   rw [e1, roundWithAccuracy_exact _ _ hm1 (by rw [hml]; omega) (by rw [hml]; simp)]
-  apply finite_congr
+  apply finite_congr'
   · rw [hml]; simp
   · rw [hml]; omega
+
+/-- multiplying a normal number by `1.0` in the model -/
+theorem mul_one_normal (m : Nat) (e : Int) (h : 0 < m) (hm1 : 2 ^ 52 ≤ m) (hm2 : m < 2 ^ 53)
+    (he1 : -1000 ≤ e) (he2 : e ≤ 971) :
+    UnpackedFloat.mul Format.binary64 (.finite .positive m e h) (.finite .positive (2 ^ 52) (-52) (by decide)) =
+      .finite .positive m e h := by
+  have hml : m.log2 = 52 := (Nat.log2_eq_iff (by omega)).2 ⟨hm1, hm2⟩
+  have hl2 : (m * 2 ^ 52).log2 = 104 := by rw [log2_mul_two_pow _ _ (by omega), hml]
+  rw [mul_finite, pos_mul_pos, roundWithAccuracy_exact _ _ (Nat.le_trans hm1 (Nat.le_mul_of_pos_right _ (by decide)))
+    (by rw [hl2]; omega) (by rw [hl2]; exact Nat.dvd_mul_left _ _)]
+  have e2 : m * 2 ^ 52 / 2 ^ ((m * 2 ^ 52).log2 - 52) = m := by
+    rw [hl2]; exact Nat.mul_div_cancel _ (by decide)
+  have e3 : e + -52 + (((m * 2 ^ 52).log2 - 52 : Nat) : Int) = e := by
+    rw [hl2]; omega
+  exact finite_congr' _ _ e2 e3
+
+theorem toFloat_small (y : Nat) (h0 : 0 < y) (hy : y < 2 ^ 53) :
+    (y.toUInt64.toFloat).toModel.unpack = .finite .positive (y <<< (52 - y.log2)) ((y.log2 : Int) - 52)
+        (by rw [Nat.shiftLeft_eq]; exact Nat.mul_pos h0 (Nat.pow_pos (by decide))) := by
+  have hL : y.log2 < 53 := (Nat.log2_lt (by omega)).2 hy
+  obtain ⟨hm1, hm2⟩ := shl_log2 y h0 hy
+  rw [toModel_toFloat]
+  have : y.toUInt64.toNat = y := by
+    simp; omega
+  rw [this, unpacked_ofNat_small y h0 hy]
+  exact model_unpack_pack _ _ _ hm1 hm2 (by omega) (by omega)
 
 /-- **`Float.ofNat y` for `0 < y < 2^53`** (the fast path `y.toUInt64.toFloat * 1.0` of `Float.ofScientific`): the exact
     value, with the mantissa normalised to 53 bits -/
@@ -117,25 +149,143 @@ theorem float_ofNat_small (y : Nat) (h0 : 0 < y) (hy : y < 2 ^ 53) :
         (by rw [Nat.shiftLeft_eq]; exact Nat.mul_pos h0 (Nat.pow_pos (by decide))) := by
   have hL : y.log2 < 53 := (Nat.log2_lt (by omega)).2 hy
   obtain ⟨hm1, hm2⟩ := shl_log2 y h0 hy
-  rw [float_ofNat_eq_small y hy, toModel_mul, one_unpack]
-  have e1 : (y.toUInt64.toFloat).toModel.unpack = .finite .positive (y <<< (52 - y.log2)) ((y.log2 : Int) - 52)
-        (by rw [Nat.shiftLeft_eq]; exact Nat.mul_pos h0 (Nat.pow_pos (by decide))) := by
-    rw [toModel_toFloat]
-    have : y.toUInt64.toNat = y := by
-      simp; omega
-    rw [this, unpacked_ofNat_small y h0 hy]
-    exact model_unpack_pack _ _ _ hm1 hm2 (by omega) (by omega)
-  rw [e1]
-  have hml : (y <<< (52 - y.log2)).log2 = 52 := (Nat.log2_eq_iff (by omega)).2 ⟨hm1, hm2⟩
-  have hl2 : (y <<< (52 - y.log2) * 2 ^ 52).log2 = 104 := by rw [log2_mul_two_pow _ _ (by omega), hml]
-  rw [mul_finite, pos_mul_pos, roundWithAccuracy_exact _ _ (Nat.le_trans hm1 (Nat.le_mul_of_pos_right _ (by decide)))
-    (by rw [hl2]; omega) (by rw [hl2]; exact Nat.dvd_mul_left _ _)]
-  have e2 : y <<< (52 - y.log2) * 2 ^ 52 / 2 ^ ((y <<< (52 - y.log2) * 2 ^ 52).log2 - 52) = y <<< (52 - y.log2) := by
-    rw [hl2]; exact Nat.mul_div_cancel _ (by decide)
-  have e3 : (y.log2 : Int) - 52 + -52 + (((y <<< (52 - y.log2) * 2 ^ 52).log2 - 52 : Nat) : Int) =
-      (y.log2 : Int) - 52 := by
-    rw [hl2]; omega
-  rw [finite_congr e2 e3]
+  rw [float_ofNat_eq_small y hy, toModel_mul, one_unpack, toFloat_small y h0 hy,
+    mul_one_normal _ _ _ hm1 hm2 (by omega) (by omega)]
   exact model_unpack_pack _ _ _ hm1 hm2 (by omega) (by omega)
+
+/-! ## `Float.ofNat` from `2^53` on: faithful rounding -/
+
+theorem float_ofNat_eq_large (y : Nat) (hy : 2 ^ 53 ≤ y) :
+    Float.ofNat y = Float.ofModel (Float.Model.pack (UnpackedFloat.ofScientific Format.binary64 y 0)) := by
+  show Float.ofScientific y false 0 = _
+  unfold Float.ofScientific
+  rw [dif_neg (by omega)]
+  rfl
+
+theorem unpacked_ofScientific_zero (y : Nat) (h0 : 0 < y) :
+    UnpackedFloat.ofScientific Format.binary64 y 0 =
+      roundWithAccuracy Format.binary64 .positive (y * 2 ^ 53) (-53) .exact := by
+  unfold UnpackedFloat.ofScientific
+  rw [dif_neg (by omega), if_neg (by decide), if_neg (by simp), if_pos (by decide), mul_finite, pos_mul_pos]
+  simp [b64_mantissaBits, Nat.shiftLeft_eq]
+
+/-- **`Float.ofNat y` for `0 < y < 2^64`**: a normal number `m · 2^e` (53-bit `m`) whose value `v` (an integer, because
+    `e ≥ -52` … stated as `m · 2^(e+52) = v · 2^52`) is `y` up to a relative error `2^-52` (faithful rounding) -/
+theorem float_ofNat_spec (y : Nat) (h0 : 0 < y) (hy : y < 2 ^ 64) :
+    ∃ m e h v, (Float.ofNat y).toModel.unpack = .finite .positive m e h ∧ 2 ^ 52 ≤ m ∧ m < 2 ^ 53 ∧
+      -52 ≤ e ∧ e ≤ 12 ∧ m * 2 ^ (e + 52).toNat = v * 2 ^ 52 ∧ v ≤ y + y / 2 ^ 52 ∧ y ≤ v + y / 2 ^ 52 := by
+  have hL : y.log2 < 64 := (Nat.log2_lt (by omega)).2 hy
+  have hl1 := Nat.log2_self_le (n := y) (by omega)
+  have hl2 := @Nat.lt_log2_self y
+  by_cases hs : y < 2 ^ 53
+  · have hL' : y.log2 < 53 := (Nat.log2_lt (by omega)).2 hs
+    obtain ⟨hm1, hm2⟩ := shl_log2 y h0 hs
+    refine ⟨_, _, _, y, float_ofNat_small y h0 hs, hm1, hm2, by omega, by omega, ?_, by omega, by omega⟩
+    rw [Nat.shiftLeft_eq, Nat.mul_assoc, ← Nat.pow_add]
+    congr 2
+    omega
+  · have hy53 : 2 ^ 53 ≤ y := by omega
+    have hL' : 53 ≤ y.log2 := (Nat.le_log2 (by omega)).2 hy53
+    have hlM : (y * 2 ^ 53).log2 = y.log2 + 53 := log2_mul_two_pow _ _ h0
+    obtain ⟨m, e, h, heq, hm1, hm2, hcase, -⟩ := roundWithAccuracy_spec (y * 2 ^ 53) (-53) .exact
+      (Nat.le_trans (by decide) (Nat.mul_le_mul_right _ hy53)) (by omega)
+    rw [hlM] at hcase
+    obtain ⟨d, hd⟩ : ∃ d, y.log2 = d + 52 := ⟨y.log2 - 52, by omega⟩
+    have hsh : y.log2 + 53 - 52 = d + 53 := by omega
+    have hq : y * 2 ^ 53 / 2 ^ (d + 53) = y / 2 ^ d := by
+      rw [Nat.pow_add, Nat.mul_comm (2 ^ d), ← Nat.div_div_eq_div_mul, Nat.mul_div_cancel _ (by decide)]
+    rw [hsh, hq] at hcase
+    have hq1 : y / 2 ^ d * 2 ^ d ≤ y := Nat.div_mul_le_self _ _
+    have hq2 : y < y / 2 ^ d * 2 ^ d + 2 ^ d :=
+      Nat.lt_div_mul_add (a := y) (b := 2 ^ d) (Nat.pow_pos (by decide))
+    have hq3 : (y / 2 ^ d + 1) * 2 ^ d = y / 2 ^ d * 2 ^ d + 2 ^ d := by rw [Nat.add_mul, Nat.one_mul]
+    have hdy : 2 ^ d ≤ y / 2 ^ 52 := by
+      rw [Nat.le_div_iff_mul_le (by decide), ← Nat.pow_add, ← hd]; exact hl1
+    have hun : (Float.ofNat y).toModel.unpack = .finite .positive m e h := by
+      rw [float_ofNat_eq_large y hy53, ofModel_toModel, unpacked_ofScientific_zero y h0, heq]
+      exact model_unpack_pack _ _ _ hm1 hm2 (by omega) (by omega)
+    have hd12 : d ≤ 11 := by omega
+    rcases hcase with ⟨rfl, rfl⟩ | ⟨rfl, rfl⟩ | ⟨h53, rfl, rfl⟩
+    · refine ⟨_, _, h, y / 2 ^ d * 2 ^ d, hun, hm1, hm2, by omega, by omega, ?_, by omega, by omega⟩
+      rw [show (-53 + ((d + 53 : Nat) : Int) + 52).toNat = d + 52 by omega, Nat.pow_add, Nat.mul_assoc]
+    · refine ⟨_, _, h, (y / 2 ^ d + 1) * 2 ^ d, hun, hm1, hm2, by omega, by omega, ?_, ?_, by omega⟩
+      · rw [show (-53 + ((d + 53 : Nat) : Int) + 52).toNat = d + 52 by omega, Nat.pow_add, Nat.mul_assoc]
+      · omega
+    · refine ⟨_, _, h, (y / 2 ^ d + 1) * 2 ^ d, hun, hm1, hm2, by omega, by omega, ?_, ?_, by omega⟩
+      · rw [show (-53 + ((d + 53 : Nat) : Int) + 1 + 52).toNat = (d + 52) + 1 by omega, h53, Nat.pow_succ,
+          Nat.pow_add]
+        ring
+      · omega
+
+/-! ## `Float.sqrt` -/
+
+theorem sqrt_targetExponent (m : Nat) (e : Int) (hl : m.log2 = 52) (he : -1000 ≤ e) :
+    min (e.ediv 2) (Format.binary64.targetExponent ((totalExponent m e + 1).ediv 2)) = e / 2 - 26 := by
+  unfold Format.targetExponent totalExponent
+  rw [b64_mantissaBits, b64_minExponent, hl]
+  have e1 : e.ediv 2 = e / 2 := rfl
+  have e2 : (((52 : Nat) : Int) + 1 + e + 1).ediv 2 = (e + 54) / 2 := by
+    show (((52 : Nat) : Int) + 1 + e + 1) / 2 = _
+    congr 1; omega
+  rw [e1, e2]
+  omega
+
+theorem nat_sqrt_bounds (M : Nat) (h1 : 2 ^ 104 ≤ M) (h2 : M < 2 ^ 106) : 2 ^ 52 ≤ M.sqrt ∧ M.sqrt < 2 ^ 53 := by
+  have a := Nat.sqrt_le M
+  have b := Nat.lt_succ_sqrt M
+  constructor
+  · by_contra hc
+    have : (M.sqrt + 1) * (M.sqrt + 1) ≤ 2 ^ 52 * 2 ^ 52 := Nat.mul_le_mul (by omega) (by omega)
+    have e : (2:Nat) ^ 52 * 2 ^ 52 = 2 ^ 104 := by rw [← Nat.pow_add]
+    simp only [Nat.succ_eq_add_one] at b
+    omega
+  · by_contra hc
+    have : 2 ^ 53 * 2 ^ 53 ≤ M.sqrt * M.sqrt := Nat.mul_le_mul (by omega) (by omega)
+    have e : (2:Nat) ^ 53 * 2 ^ 53 = 2 ^ 106 := by rw [← Nat.pow_add]
+    omega
+
+/-- **`sqrt` of a normal number `m · 2^e`** (53-bit `m`): with `te = e / 2 - 26` (so that `m · 2^e = M · 2^(2 te)` with a
+    105- or 106-bit integer `M = m · 2^(e - 2 te)`), the result is `r · 2^te` with `r = Nat.sqrt M` or `Nat.sqrt M + 1`
+    (faithful rounding; renormalised if `r = 2^53`). -/
+theorem sqrt_spec (m : Nat) (e : Int) (h : 0 < m) (hm1 : 2 ^ 52 ≤ m) (hm2 : m < 2 ^ 53) (he1 : -1000 ≤ e)
+    (he2 : e ≤ 900) :
+    ∃ m2 e2 h2, UnpackedFloat.sqrt Format.binary64 (.finite .positive m e h) = .finite .positive m2 e2 h2 ∧
+      2 ^ 52 ≤ m2 ∧ m2 < 2 ^ 53 ∧
+      ((m2 = (m * 2 ^ (e - 2 * (e / 2 - 26)).toNat).sqrt ∧ e2 = e / 2 - 26) ∨
+       (m2 = (m * 2 ^ (e - 2 * (e / 2 - 26)).toNat).sqrt + 1 ∧ e2 = e / 2 - 26) ∨
+       ((m * 2 ^ (e - 2 * (e / 2 - 26)).toNat).sqrt + 1 = 2 ^ 53 ∧ m2 = 2 ^ 52 ∧ e2 = e / 2 - 26 + 1)) := by
+  have hl : m.log2 = 52 := (Nat.log2_eq_iff (by omega)).2 ⟨hm1, hm2⟩
+  unfold UnpackedFloat.sqrt sqrtCore
+  dsimp only
+  rw [sqrt_targetExponent m e hl he1, Nat.shiftLeft_eq]
+  generalize hs : (e - 2 * (e / 2 - 26)).toNat = s
+  have hs' : s = 52 ∨ s = 53 := by omega
+  generalize hM : m * 2 ^ s = M
+  have hM1 : 2 ^ 104 ≤ M ∧ M < 2 ^ 106 := by
+    rcases hs' with rfl | rfl <;> omega
+  obtain ⟨hr1, hr2⟩ := nat_sqrt_bounds M hM1.1 hM1.2
+  generalize (if M - M.sqrt * M.sqrt = 0 then Accuracy.exact
+      else Accuracy.inexact (if M - M.sqrt * M.sqrt ≤ M.sqrt then Ordering.lt else Ordering.gt)) = acc
+  have hlr : M.sqrt.log2 = 52 := (Nat.log2_eq_iff (by omega)).2 ⟨hr1, hr2⟩
+  obtain ⟨m2, e2, h2, heq, hb1, hb2, hcase, -⟩ := roundWithAccuracy_spec M.sqrt (e / 2 - 26) acc hr1 (by omega)
+  rw [hlr] at hcase
+  simp only [Nat.sub_self, Nat.pow_zero, Nat.div_one, Int.natCast_zero, Int.add_zero] at hcase
+  exact ⟨m2, e2, h2, heq, hb1, hb2, hcase⟩
+
+/-! ## `Float.toUInt64` -/
+
+/-- `toUInt64` of a positive number `m · 2^(-k)` below `2^64` is the floor -/
+theorem toUInt64_spec (m : Nat) (e : Int) (h : 0 < m) (k : Nat) (hk : e = -(k : Int)) (hlt : m / 2 ^ k < 2 ^ 64) :
+    (UnpackedFloat.finite .positive m e h).toUInt64.toNat = m / 2 ^ k := by
+  subst hk
+  unfold UnpackedFloat.toUInt64 UnpackedFloat.toInt roundToInt decreaseExponent shiftToExponent
+  dsimp only
+  have e1 : (-(k : Int) - 0).toNat = 0 := by omega
+  have e2 : (0 - (-(k : Int) - ((0 : Nat) : Int))).toNat = k := by omega
+  rw [e1, e2, Nat.shiftLeft_eq, Nat.pow_zero, Nat.mul_one, shiftRight_mantissa, ofMA_mantissa]
+  simp only [Sign.apply, Int.toNat_natCast]
+  unfold UInt64.ofNatClamp
+  rw [dif_pos (by simpa [UInt64.size] using hlt)]
+  simp
 
 end Hpx.SqrtApprox
